@@ -80,7 +80,8 @@ class CancelLoop:
     """`for event in <tokens>: [if event is not chosen:] event.resourcename.reserve_*_cancel(event)`:
     the tokens before the loop index (other than the chosen one) are consumed, the others are untouched."""
     variant = None
-    props = ("C10", "C06")
+    # (C08: a reservation left behind on an out-edge later takes a free place that a finished item then cannot get)
+    props = ("C10", "C06", "C08")
 
     def __init__(self, chosen_from, keep=None):
         self.chosen_from = chosen_from     # function(state) -> token that the loop body skips, or None
